@@ -16,7 +16,7 @@ ASSUMPTIONS = ["np.empty in the mandoline module returns poison-filled memory (t
 
 
 def bounds(tier):
-    return {"levels": [1, 2, 3], "field_lists": ["one", "reordered pair", "grid_level", "field+grid_level", "all", "str"],
+    return {"levels": [1, 2, 3], "field_lists": ["one", "reordered pair", "grid_level", "field+grid_level", "all", "str", "both rotations of three names", "rotation through grid_level"],
             "limit_level": "None, 0..finest", "modes": ["serial", "parallel x schedules"]}
 
 
@@ -87,6 +87,8 @@ def cases(tier, seed):
 
 def field_lists(names):
     fl = [[names[0]], [names[2], names[0]], ["grid_level"], [names[1], "grid_level"], ["all"], names[1]]
+    # rotations of three names (a permutation that is not its own inverse), one of them through grid_level
+    fl += [[names[1], names[2], names[0]], [names[2], names[0], names[1]], [names[2], "grid_level", names[0], names[1]]]
     if len(names) >= 5:
         # the ends of a consecutive run around a permuted interior; a repeated field and a gap
         fl += [[names[1], names[3], names[2], names[4]], [names[0], names[0], names[2]]]
